@@ -431,6 +431,10 @@ impl Property for C01 {
         }
         self.run_program(tier, case, &k, acc);
     }
+    fn show(&self, tier: Tier, case: u64) -> String {
+        let k = self.space(tier).get(case);
+        format!("[{}]\n{}", k.family, k.program.text())
+    }
     fn replay(&self, w: &Value, acc: &mut Acc) {
         // replay by source text: rebuild the program from the case index when present
         if let Some(case) = w["case"].as_u64() {
